@@ -2,6 +2,7 @@
 import MysticVerif.Basic.Proto
 import MysticVerif.Model.Dsl
 import MysticVerif.Model.Discrete
+import MysticVerif.Model.DiscreteExt
 
 namespace MysticVerif.DrvC19
 open MysticVerif MysticVerif.Discrete MysticVerif.Dsl
@@ -170,6 +171,43 @@ def handle : Handler
     match imposeMeasure finf n tracking noweight x with
     | some y => return s!"ok y={pFs y}"
     | none => return "err index"
+  | .sym "mstats2" :: args => Id.run do
+    let some m := (kw? args "m").bind parseMeasure | return "bad-op"
+    let some e := (kw? args "f").bind parseExpr | return "bad-op"
+    let some tol := getF args "tol" | return "bad-op"
+    let f := evalF e
+    let sup := match mSupport m tol with
+      | some l => pFs l
+      | none => "none"
+    return s!"ok max={pOF (mMaximum f m)} min={pOF (mMinimum f m)} ptp={pOF (mPtp f m)} " ++
+      s!"essmax={pOF (mEssMaximum f tol m)} essmin={pOF (mEssMinimum f tol m)} essptp={pOF (mEssPtp f tol m)} " ++
+      s!"expect={pF (mExpect finf m f)} expectvar={pF (mExpectVar finf m f)} support={sup} " ++
+      s!"sindex={pNs (mSupportIndex m tol)}"
+  | .sym "pmstats2" :: args => Id.run do
+    let some c := getPM args "c" | return "bad-op"
+    let some e := (kw? args "f").bind parseExpr | return "bad-op"
+    let some tol := getF args "tol" | return "bad-op"
+    let f := evalF e
+    return s!"ok max={pOF (pmMaximum f c)} min={pOF (pmMinimum f c)} ptp={pOF (pmPtp f c)} " ++
+      s!"essmax={pOF (pmEssMaximum f tol c)} essmin={pOF (pmEssMinimum f tol c)} essptp={pOF (pmEssPtp f tol c)} " ++
+      s!"cm={pFs (pmCenterMass finf c)}"
+  | .sym "setcm" :: args => Id.run do
+    let some c := getPM args "c" | return "bad-op"
+    let some v := getFs args "v" | return "bad-op"
+    match pmSetCenterMass finf c v with
+    | some c' => return s!"ok c={pPM c'}"
+    | none => return "err index"
+  | .sym "normalize" :: args => Id.run do
+    let some m := (kw? args "m").bind parseMeasure | return "bad-op"
+    return s!"ok m={pM (mNormalize finf m)}"
+  | .sym "vstats" :: args => Id.run do
+    let some c := getPM args "c" | return "bad-op"
+    let some v := getFs args "values" | return "bad-op"
+    let some e := (kw? args "f").bind parseExpr | return "bad-op"
+    let some t := getF args "m" | return "bad-op"
+    let s : Scen Float := ⟨c, v⟩
+    return s!"ok pofv={pF (pofValue s (fun y => evalF e [y]))} meanv={pF (meanValue finf s)} " ++
+      s!"setmean={pFs (setMeanValue finf s t).values}"
   | _ => "bad-op"
 
 end MysticVerif.DrvC19
